@@ -4,7 +4,7 @@
 export GOFLAGS=-mod=mod GOPROXY=off GOSUMDB=off GOTOOLCHAIN=local
 OUT=${1:-/tmp/baseline_off.$$.json}
 cd "${VERIF_REPO:-/repo}" || exit 2
-go test -json -vet=off -count=1 -timeout 25m ./... > "$OUT" 2>/dev/null
+go test -json -vet=off -count=1 -timeout 90m ./... > "$OUT" 2>/dev/null
 python3 - "$OUT" <<'PY'
 import json,sys
 base=json.load(open('/root/.vp/BASELINE.json'))
